@@ -13,6 +13,7 @@ CONSTANTS
   Others = {"r2"}
   FixF1 = TRUE
   FixF2 = TRUE
+  FixF3 = FALSE
 VIEW View
 INVARIANTS NoLoss
 CHECK_DEADLOCK FALSE
